@@ -66,7 +66,28 @@ func writeEvidence(cfg *PropConfig, tier string, seed int, runs []*FuncRun, tota
 		"spec_axioms":              dedupe(axioms),
 		"outside_subset":           dedupe(unsup),
 		"failures":                 fl,
-		"integers":                 "mathematical integers with explicit overflow obligations (#ovf) unless a function is marked mode bitvector",
+		"integers":                 "mathematical integers with explicit overflow obligations (#ovf); unsigned arithmetic wraps in functions marked `mode wrap`; floats are IEEE-754 (SMT FloatingPoint)",
+	}
+	// stage G: obligations on the output of the real generator for the corpus manifest (bounded in programs)
+	nCorpus := 0
+	corpusManifest := ""
+	for _, mc := range cfg.Modules {
+		if mc.Corpus != "" {
+			corpusManifest = mc.Corpus
+		}
+	}
+	for _, r := range runs {
+		if r.Mod != nil && r.Enc != nil && strings.HasPrefix(r.Name, "corpus/") {
+			for _, o := range r.Enc.obls {
+				if o.Owned && o.Result.Status == "unsat" {
+					nCorpus++
+				}
+			}
+		}
+	}
+	if corpusManifest != "" {
+		cov["stage_g"] = map[string]any{"manifest": corpusManifest, "discharged_on_generator_output": nCorpus,
+			"label": "bounded in programs: these obligations are about the code the REAL generator emits for this corpus manifest on this run (for all inputs of that code), not about every schema"}
 	}
 	assumptions := append([]string{}, cfg.Assumptions...)
 	assumptions = append(assumptions, trusted...)
